@@ -29,6 +29,24 @@ ALLOWED_EXTERNAL = {
 }
 ALLOWED_LOCAL_PREFIX = ("alloc::ThreadAllocInfo::try_current", "alloc::ThreadAllocInfo::tally_",
                         "alloc::AllocOpMap::get_mut", "alloc::AllocOp::realloc")
+# Functions defined in the `core` crate cannot reach an allocator (core has none). They are accepted unless they can panic
+# (the panic machinery formats and may allocate) or format: judged by the last path segment / the module.
+CORE_DENY_LAST = {"unwrap", "expect", "unwrap_err", "expect_err", "unwrap_or_else", "panic", "panic_fmt", "panic_display", "assert_failed", "index", "index_mut",
+                  "copy_from_slice", "clone_from_slice", "split_at", "split_at_mut", "swap", "fmt", "write_fmt", "write_str", "to_string", "borrow", "borrow_mut",
+                  "with", "set", "replace", "take", "div", "rem", "pow", "abs", "neg", "checked_ilog10", "ilog10", "ilog2", "ilog", "chunks", "windows", "copy_within",
+                  "rotate_left", "rotate_right", "sort_unstable", "sort_unstable_by", "sort_unstable_by_key", "select_nth_unstable", "step_by", "from_digit",
+                  "call", "call_mut", "call_once"}
+CORE_DENY_PREFIX = ("core::panicking::", "std::panicking::", "std::fmt::", "core::fmt::", "std::panic::", "std::cell::RefCell", "std::cell::Ref", "std::str::", "std::slice::index",
+                    "std::ops::Index", "std::ops::Fn", "std::iter::", "std::cell::OnceCell", "std::cell::LazyCell")
+
+
+def core_callee_ok(c, name):
+    """A callee defined in crate `core` that neither panics nor formats nor calls back into unknown code."""
+    if getattr(c, "ck", None) != "core":
+        return False
+    if name.startswith(CORE_DENY_PREFIX) or name.rsplit("::", 1)[-1] in CORE_DENY_LAST:
+        return False
+    return True
 
 
 def methods(prog, crate):
@@ -102,11 +120,9 @@ def run(ctx, prog, crate):
     n = 0
     for b in bodies:
         ctx.saw(b)
-        if not b.path.startswith(IMPL) and not b.path.startswith(ALLOWED_LOCAL_PREFIX):
-            ctx.fail("R09.2", ["local-callee", b.path], "allocator hooks reach `%s`, which is not a tally helper" % b.path,
-                     b.where(0))
-        else:
-            ctx.ok("R09.2", "local|" + b.path)
+        # every divan function the hooks reach is held to the same standard below (no drops, no panic edges, only
+        # non-allocating callees): which helpers exist, and what they are called, is free
+        ctx.ok("R09.2", "local|" + b.path)
         n += 1
         for i in sorted(b.live):
             t = b.term(i)
@@ -119,8 +135,8 @@ def run(ctx, prog, crate):
     for name, c in sorted(ext.items()):
         if name.startswith("std::alloc::GlobalAlloc::") and c.body.path.startswith(IMPL):
             continue  # the forwarded call itself (R09.1)
-        ctx.check(name in ALLOWED_EXTERNAL, "R09.2", ["external-callee", name],
-                  "allocator hooks call `%s`, which is not on the non-allocating allow-list" % name, c.line())
+        ctx.check(name in ALLOWED_EXTERNAL or core_callee_ok(c, name), "R09.2", ["external-callee", name],
+                  "allocator hooks call `%s` (crate %s), which is neither a non-panicking `core` function nor on the non-allocating allow-list" % (name, getattr(c, "ck", "?")), c.line())
         n += 1
     for c in indirect:
         ctx.fail("R09.2", ["indirect-call", c.body.path, c.name], "indirect call inside an allocator hook", c.line())
@@ -132,8 +148,18 @@ def run(ctx, prog, crate):
     # R09.3 thread local
     tls = [s for s in prog.statics(crate) if s["thread_local"] and "CURRENT_THREAD_INFO" in s["path"]]
     if ctx.anchor("R09.3", "thread_local statics backing CURRENT_THREAD_INFO", tls, 1):
-        plain = [s for s in tls if s["ty"] == "std::cell::UnsafeCell<alloc::ThreadAllocInfo>"]
-        ctx.check(len(plain) == 1 and plain[0]["needs_drop"] is False, "R09.3", ["slot-type-needs-no-drop"],
+        lazy = [s for s in tls if "LazyStorage<" in s["ty"]]
+        ctx.check(not lazy, "R09.3", ["slot-const-initialised"],
+                  "the thread-local slot is lazily initialised (%s): its initialiser runs inside the first allocator request of every thread" % [s["ty"] for s in lazy], "src/alloc.rs")
+        if lazy:
+            # say what the initialiser does
+            ini = [b for (ck_, pth, pr), b in prog.bodies.items() if ck_ == crate and pr < 0 and "CURRENT_THREAD_INFO::" in pth and "init" in pth.lower()]
+            ib, iext, _ = prog.callee_closure(ini, crate=crate) if ini else ([], {}, [])
+            for name, c in sorted(iext.items()):
+                ctx.check(name in ALLOWED_EXTERNAL or core_callee_ok(c, name), "R09.3", ["slot-initialiser", name],
+                          "the lazy initialiser of the thread-local slot calls `%s` (crate %s) inside an allocator request" % (name, getattr(c, "ck", "?")), c.line())
+        plain = [s for s in tls if not s["ty"].startswith("std::thread::local_impl::")]
+        ctx.check(lazy or (len(plain) == 1 and plain[0]["needs_drop"] is False), "R09.3", ["slot-type-needs-no-drop"],
                   "the thread-local slot type needs drop (std would register a destructor, which may allocate): %s"
                   % [(s["ty"], s["needs_drop"]) for s in tls], "src/alloc.rs")
     adt = prog.adt("alloc::ThreadAllocInfo", crate)
